@@ -322,6 +322,57 @@ def encodeBlock (t : Table) : List Choice → List Header → Bytes × Table
     let r2 := encodeBlock r1.2 cs.tail hs
     (r1.1 ++ r2.1, r2.2)
 
+/-! ### a whole connection -/
+
+/-- what h2_recv_headers() does with a header block: hand the decoded list to
+    the request (h2_parse_headers_frame) or decode-and-discard it (refused
+    stream, trailers of an unknown stream, stream after a graceful GOAWAY:
+    h2_discard_headers) -/
+inductive Disp where
+  | serve | discard
+deriving DecidableEq, Repr
+
+/-- what the encoding peer does, in order -/
+inductive ConnItem where
+  | block (cs : List Choice) (hs : List Header) (disp : Disp)
+  | settings (n : Nat)      -- SETTINGS_HEADER_TABLE_SIZE renegotiated to n (applied at both ends)
+
+/-- what travels / is agreed between the two ends -/
+inductive Wire where
+  | block (bs : Bytes) (disp : Disp)
+  | settings (n : Nat)
+
+def encodeConn (t : Table) : List ConnItem → List Wire × Table
+  | [] => ([], t)
+  | .block cs hs disp :: rest =>
+    let r := encodeBlock t cs hs
+    let r2 := encodeConn r.2 rest
+    (.block r.1 disp :: r2.1, r2.2)
+  | .settings n :: rest =>
+    let r2 := encodeConn (t.setMaxCapacity n) rest
+    (.settings n :: r2.1, r2.2)
+
+/-- the receiving end over a connection's life: the header lists handed to
+    requests, the final decoder state, and whether the connection is still
+    alive (a decoding error in a served block is answered with GOAWAY) -/
+def recvConn (cap : Nat) : Dec → List Wire → List (List Field) × Dec × Bool
+  | d, [] => ([], d, true)
+  | d, .settings n :: ws => recvConn cap (d.setMaxCapacity n) ws
+  | d, .block bs .discard :: ws => recvConn cap (discardBlock cap d bs) ws
+  | d, .block bs .serve :: ws =>
+    let r := decodeBlock cap d bs
+    match r.err with
+    | some _ => ([], r.dec, false)
+    | none =>
+      let r2 := recvConn cap r.dec ws
+      (r.fields :: r2.1, r2.2.1, r2.2.2)
+
+/-- header lists of the served blocks -/
+def servedLists : List ConnItem → List (List Header)
+  | [] => []
+  | .block _ hs .serve :: rest => hs :: servedLists rest
+  | _ :: rest => servedLists rest
+
 /-! ### specification predicates used by the theorems -/
 
 /-- table invariant: the size never exceeds the current maximum, which never
